@@ -73,8 +73,19 @@ func bindResults(env *specEnv, sig *types.Signature, results []Val) {
 // ---- entry point for call instructions -------------------------------------------------
 
 func (f *frame) call(res ssa.Value, c *ssa.CallCommon, ins ssa.Instruction) {
+	f.joinPaths = nil
 	f.call1(res, c, ins)
+	n0 := len(f.vc.obls)
 	f.stepFrames(ins.Pos())
+	if len(f.joinPaths) > 0 {
+		// obligations stated right after an inlined call that returned along several paths: split over those paths
+		for _, o := range f.vc.obls[n0:] {
+			if len(o.Paths) == 0 {
+				o.Paths = f.joinPaths
+			}
+		}
+	}
+	f.joinPaths = nil
 }
 
 // stepFrames: in a function whose contract says so, the frame condition relative to function entry is proved
@@ -303,6 +314,10 @@ func (f *frame) inline(fn *ssa.Function, args []Val, binds []Val, ct *Contract, 
 	}
 	f.R = vc.define("R.ret."+fn.Name(), "Bool", or(conds...))
 	f.st = vc.join(js)
+	f.joinPaths = nil
+	if f.top && len(conds) > 1 && len(conds) <= 8 {
+		f.joinPaths = conds // the return conditions cover the reachability after the call: a sound case split
+	}
 	var out []Val
 	for i := 0; i < fn.Signature.Results().Len(); i++ {
 		var vs []Val
